@@ -208,6 +208,41 @@ def header_attrs_ok(rng: int, burst: int, lines: int, overlap: int, inter_blank:
     return ok
 
 
+def header_flow_ok(rng: int, burst: int, lines: int, overlap: int, inter_blank: bool, complex_samples: bool) -> bool:
+    """
+    pre: rng >= -1 and burst >= -1 and lines >= -1 and overlap >= -1
+    post: _
+    """
+    # the same, one level up: the image group built by transform_metadata carries exactly these header attributes (next to the
+    # per-line attributes and the coordinates list) for BOTH sample types - a filled field is never dropped on the way
+    import datetime
+
+    interleaving = "" if inter_blank else "BSQ"
+    header = _header(rng, burst, lines, overlap, interleaving)
+    header["prefix_suffix_data_locators"]["sar_data_format_type_code"] = "C*8" if complex_samples else "IU2"
+    recs = [{"sar_image_data_line_number": i + 1, "data": {"start": 720 + 100 * i + 60, "stop": 720 + 100 * (i + 1)},
+             "sensor_acquisition_date": datetime.datetime(2020, 2, 29, 0, 0, i), "sar_channel_id": 1} for i in range(2)]
+    group, array_metadata = IM.transform_metadata(header, recs)
+    got = group.attrs
+    want = {}
+    if not inter_blank:
+        want["interleaving_id"] = "BSQ"
+    if rng != -1:
+        want["valid_range"] = [0, rng]
+    if burst != -1:
+        want["number_of_burst_data"] = burst
+    if lines != -1:
+        want["number_of_lines_per_burst"] = lines
+    if overlap != -1:
+        want["number_of_overlap_lines_with_adjacent_bursts"] = overlap
+    ok = True
+    for k in ("interleaving_id", "valid_range", "number_of_burst_data", "number_of_lines_per_burst", "number_of_overlap_lines_with_adjacent_bursts"):
+        ok = ok & ((k in got) == (k in want))
+        if k in want:
+            ok = ok & (got.get(k) == want[k])
+    return ok & (array_metadata["type_code"] == ("C*8" if complex_samples else "IU2")) & (tuple(array_metadata["shape"]) == (3, 4))
+
+
 def finding_key_header_attrs_ok(rng, burst, lines, overlap, inter_blank):
     got = IM.extract_attrs(_header(rng, burst, lines, overlap, "" if inter_blank else "BSQ"))
     keys = []
